@@ -13,9 +13,11 @@ use common::*;
 use mc::report::{Report, Tier, fxhash};
 use rayon::prelude::*;
 use serde_json::{Value, json};
-use std::collections::BTreeMap;
+use std::cell::RefCell;
+use std::collections::{BTreeMap, BTreeSet};
 
 const PROP: &str = "C13";
+const SELFTEST_PROP: &str = "C13-selftest";
 
 #[derive(Default)]
 struct Acc {
@@ -128,7 +130,23 @@ fn judge(e: &TypeEntry, base: &Base, kind: MutKind, b: &[u8], p: &Probe, acc: &m
     }
 }
 
+struct Rec<'a> {
+    rep: &'a Report,
+    sigs: RefCell<BTreeSet<String>>,
+}
+impl Rec<'_> {
+    fn violation(&self, sig: &str, case: Value, detail: String) {
+        self.sigs.borrow_mut().insert(sig.to_string());
+        self.rep.violation(sig, case, detail);
+    }
+}
+
 fn run(rep: &Report) {
+    run_on(rep, registry(), true);
+}
+
+fn run_on(rep: &Report, reg: Vec<TypeEntry>, full: bool) -> BTreeSet<String> {
+    let rec = Rec { rep, sigs: RefCell::new(BTreeSet::new()) };
     let thorough = rep.tier == Tier::Thorough;
     let tp = tier_params(thorough);
     rep.set_rule(&format!(
@@ -140,17 +158,16 @@ fn run(rep: &Report) {
     rep.assume("well-formedness of ProofOfSpace / FullBlock / UnfinishedBlock values is taken from the struct comments in /repo (fields not serialized by the value's version are zero/None/empty; v2 proofs carry exactly one of pool key / contract hash); the round-trip equation is demanded of well-formed values only");
     rep.assume("quality strings of version-2 proofs come from ProofOfSpace::quality_string(), itself checked against the 7 recorded vectors in quality-string-tests/");
 
-    let reg = registry();
     let pat = BlsPatterns::new();
     let pc = ProbeCfg { begin: no_begin, end: no_end, debug: false, hash_always: false };
     let vcfg = ValueCfg { two_dev: thorough, check: true, prop: PROP };
 
     // recorded quality strings
-    for (name, r) in check_quality_vectors() {
+    for (name, r) in if full { check_quality_vectors() } else { Vec::new() } {
         rep.eval();
         match r {
             Ok(()) => rep.outcome("quality-vector/ok"),
-            Err(d) => rep.violation("C13/value/pos-v2-quality-vector", json!({"kind": "quality-vector", "name": name}), d),
+            Err(d) => rec.violation("C13/value/pos-v2-quality-vector", json!({"kind": "quality-vector", "name": name}), d),
         }
     }
 
@@ -172,12 +189,12 @@ fn run(rep: &Report) {
         }
         rep.distinct_many(vs.seen.iter().map(|h| fxhash(&(e.name, h))));
         for f in &vs.findings {
-            rep.violation(&f.sig, f.case.clone(), f.detail.clone());
+            rec.violation(&f.sig, f.case.clone(), f.detail.clone());
         }
         for (sig, n) in &vs.sig_counts {
             let kept = vs.findings.iter().filter(|f| &f.sig == sig).count() as u64;
             for _ in kept..*n {
-                rep.violation(sig, Value::Null, String::new());
+                rec.violation(sig, Value::Null, String::new());
             }
         }
         per_type.insert(e.name.to_string(), json!({"tape_len": vs.tape_len, "values": vs.tapes, "distinct_values": vs.seen.len(), "distinct_lengths": vs.by_len.len(), "letters": vs.letters.len()}));
@@ -252,13 +269,13 @@ fn run(rep: &Report) {
             *tot.more.entry(sig).or_insert(0) += n;
         }
         for f in a.findings {
-            rep.violation(&f.sig, f.case, f.detail);
+            rec.violation(&f.sig, f.case, f.detail);
         }
     }
     // cases beyond the three kept per base only count
     for (sig, n) in &tot.more {
         for _ in 0..*n {
-            rep.violation(sig, Value::Null, String::new());
+            rec.violation(sig, Value::Null, String::new());
         }
     }
     for ki in 0..6 {
@@ -279,6 +296,9 @@ fn run(rep: &Report) {
     rep.sample(json!({"type": "Option<u32>", "base": "0100000000", "mutant": "sub pos 0 := 02", "expect": "rejected by both decoders; if accepted, re-encoding must give 0200000000"}));
 
     // ---- registry self check
+    if !full {
+        return rec.sigs.into_inner();
+    }
     let cov = scan::coverage(&reg);
     rep.extra("source_scan", json!({
         "streamable_types_found_in_repo": cov.found,
@@ -290,6 +310,7 @@ fn run(rep: &Report) {
     if !cov.uncovered.is_empty() {
         eprintln!("C13 note: streamable types in /repo not in the registry: {:?}", cov.uncovered);
     }
+    rec.sigs.into_inner()
 }
 
 fn replay(case: &Value) -> String {
@@ -318,6 +339,36 @@ fn replay(case: &Value) -> String {
     }
 }
 
+/// run the explorers over the deliberately broken codecs of `common::selftest` and demand the
+/// planted defects; writes its evidence under the property name below and removes it again
+fn selftest(expected_idx: usize, with_greedy: bool) -> ! {
+    mc::report::quiet_panics();
+    let (reg, e13, e14) = common::selftest::entries(with_greedy);
+    let expected = if expected_idx == 13 { e13 } else { e14 };
+    let rep = Report::new(SELFTEST_PROP, "exploration", Tier::Quick, 0);
+    let sigs = run_on(&rep, reg, false);
+    let code = rep.finish();
+    let _ = std::fs::remove_file(format!("/verif/evidence/{SELFTEST_PROP}.json"));
+    if let Ok(rd) = std::fs::read_dir("/verif/replays") {
+        for e in rd.flatten() {
+            if e.file_name().to_string_lossy().starts_with(&format!("{SELFTEST_PROP}-")) {
+                let _ = std::fs::remove_file(e.path());
+            }
+        }
+    }
+    let missing: Vec<&str> = expected.iter().copied().filter(|s| !sigs.contains(&format!("{PROP}/{s}"))).collect();
+    println!("self-test: reported {sigs:?}");
+    if missing.is_empty() && code == 1 {
+        println!("self-test passed: every planted defect was reported");
+        std::process::exit(0)
+    }
+    println!("self-test FAILED: not reported {missing:?} (exit code of the run {code})");
+    std::process::exit(3)
+}
+
 fn main() {
+    if std::env::var_os("C13_SELFTEST").is_some() {
+        selftest(13, false);
+    }
     mc::cli::main(PROP, "exploration", run, replay)
 }
